@@ -722,6 +722,15 @@ int main(int argc, char** argv)
       TU& c = V<TU>(k, v);
       if(IS("insert", 3)) { Tracked tk((int)a2), tv((int)a3); c.insert(tk, tv); }
       else if(IS("insertref", 3)) { NEED(a3 < c.size()); Tracked tk((int)a2); c.insert(tk, *at(c, a3)); }
+      else if(IS("inserthint", 4))
+      { // only with a key not yet present: inside a run of equal keys the position depends on the tree shape
+        NEED(a2 <= c.size());
+        bool present = false;
+        for(TU::Iterator i = c.begin(), end = c.end(); i != end; ++i) if(i.key().read() == (int)a3) present = true;
+        NEED(!present);
+        Tracked tk((int)a3), tv((int)a4);
+        c.insert(at(c, a2), tk, tv);
+      }
       else if(IS("remove", 2)) { Tracked tk((int)a2); c.remove(tk); }   // the first of the equal keys (find as repaired by area Avl)
       else if(IS("removeat", 2)) { NEED(a2 < c.size()); c.remove(at(c, a2)); }
       else if(IS("set", 3)) { NEED(a2 < c.size()); Tracked t((int)a3); *at(c, a2) = t; }
